@@ -1495,8 +1495,10 @@ where
             // and the stack of open elements has only one element in it (fragment case);
             // (2) otherwise, the adjusted current node is the current node (the bottomost node)
             //
-            // => adjusted current node != topmost element in the stack when the stack size > 1
-            Some(_) => self.open_elems.borrow().len() > 1,
+            // => adjusted current node != topmost element in the stack when the stack size > 1,
+            //    and in the fragment case also when the stack has only one element: the adjusted
+            //    current node is then the context element, which is not on the stack at all
+            Some(_) => self.open_elems.borrow().len() > 1 || self.is_fragment(),
             None => true,
         };
 
